@@ -4,6 +4,8 @@ import BctVerif.Lemmas.WalksTail
 import BctVerif.Lemmas.WalksPost
 import BctVerif.Lemmas.WalksExp
 import BctVerif.Lemmas.WalksPrTotal
+import BctVerif.Lemmas.WalksMfptExist
+import BctVerif.Lemmas.WalksMfptTotal
 /-!
 # C18 — random-walk and spectral measures satisfy their defining equations
 
@@ -13,11 +15,15 @@ theorems about spectral quantities are stated for an arbitrary orthonormal eigen
 over an arbitrary (ordered) field.
 
 * `mfpt_eq`              – `M i j = 1 + Σ_{k≠j} P i k · M k j`, `M j j = 0`, `P` = row-normalised `A`
+* `mfpt_solution_exists_unique`, `mfpt_model_is_solution` – for non-negative weights with every node reaching every node the first-passage
+  equations have exactly one solution (maximum principle), the model's `M` is it whenever the model returns, and `M ≥ 1` off the diagonal
+* `mfpt_total`           – the model returns on every such network with ≥ 2 nodes (never `singular` / `cert`): the MFPT clause is unconditional
 * `diffeff_spec`         – `E i j · M i j = 1` off the diagonal, `E i i = 0`, `g = ΣE/(n²−n)`
 * `pagerank_prior`, `pagerank_sum_one`, `pagerank_system`, `pagerank_eq`, `pagerank_pos`, `pagerank_pos_default`,
-  `pagerank_unique`, `pagerank_matrix_invertible`, `pagerank_solution_exists_unique`, `pagerank_total` (the model returns on every
+  `pagerank_pos_reachable` (strict positivity for any non-negative prior along reachability), `pagerank_unique`, `pagerank_matrix_invertible`, `pagerank_solution_exists_unique`, `pagerank_total` (the model returns on every
   non-negative matrix, `0 ≤ d < 1`), `pagerank_model_is_solution`
 * `findwalks_power`      – slice `q` = `C^q` = number of walks of length `q` (`walkCount`), slice 0 = 0
+* `findwalks_wlq`         – the walk-length distribution: `wlq[q]` = total number of walks of length q
 * `findwalks_counts_walks` – … = length of a duplicate-free enumeration of all node sequences that are walks from i to j
 * `subgraph_spectral`    – `Σ_k V i k² · Σ_{m<T} λ_k^m/m! = expDiag A T i` for every *orthonormal* eigenbasis
 * `subgraph_series_tail` – all later partial sums of the series stay within the model's explicit bound `expTail`
@@ -68,7 +74,86 @@ theorem mfpt_eq (A : QMat n) (o : MfptOut n) (h : mfpt A = .ok o) :
   simp only [hMget]
   exact this
 
+
+/-- **existence and uniqueness of the mean first passage times**: for every network with non-negative weights in which every node
+reaches every node (connected undirected / strongly connected directed), exactly one matrix has zero diagonal and satisfies
+`M i j = 1 + Σ_{k≠j} P i k · M k j` for the row-normalised `P`; its off-diagonal entries are ≥ 1 -/
+theorem mfpt_solution_exists_unique (A : QMat n) (hA : ∀ i j, 0 ≤ A.get i j) (hrow : ∀ i, ∑ k, A.get i k ≠ 0)
+    (hconn : ∀ i j, Relation.ReflTransGen (fun a b : Fin n => 0 < A.get a b) i j) :
+    ∃! M : Matrix (Fin n) (Fin n) ℚ, (∀ j, M j j = 0) ∧
+      ∀ i j, i ≠ j → M i j = 1 + ∑ k ∈ univ.erase j, toMat (transition A) i k * M k j := by
+  obtain ⟨h0, h1, hirr⟩ := transition_props A hA hrow hconn
+  exact mfpt_exists_unique (toMat (transition A)) h0 h1 hirr
+
+/-- whenever the model returns, its `M` **is** that unique solution (so the recurrence determines the output, and two returning runs
+agree), and `M i j ≥ 1` off the diagonal -/
+theorem mfpt_model_is_solution (A : QMat n) (o : MfptOut n) (h : mfpt A = .ok o) (hA : ∀ i j, 0 ≤ A.get i j)
+    (hconn : ∀ i j, Relation.ReflTransGen (fun a b : Fin n => 0 < A.get a b) i j)
+    (M' : Matrix (Fin n) (Fin n) ℚ) (hd' : ∀ j, M' j j = 0)
+    (hr' : ∀ i j, i ≠ j → M' i j = 1 + ∑ k ∈ univ.erase j, toMat (transition A) i k * M' k j) :
+    (∀ i j, M' i j = o.M.get i j) ∧ ∀ i j, i ≠ j → 1 ≤ o.M.get i j := by
+  obtain ⟨hrow', hP, -, -, -, -⟩ := mfpt_ok h
+  have hrow : ∀ i, ∑ k, A.get i k ≠ 0 := fun i => by simpa [rowSum, fsum_eq] using hrow' i
+  obtain ⟨hPget, hPsum, hdiag, hrec⟩ := mfpt_eq A o h
+  obtain ⟨h0, h1, hirr⟩ := transition_props A hA hrow hconn
+  have hrecT : ∀ i j, i ≠ j → toMat o.M i j = 1 + ∑ k ∈ univ.erase j, toMat (transition A) i k * toMat o.M k j := by
+    intro i j hij
+    have := hrec i j hij
+    simpa [hP] using this
+  obtain ⟨M0, -, huniq⟩ := mfpt_exists_unique (toMat (transition A)) h0 h1 hirr
+  have e1 := huniq M' ⟨hd', hr'⟩
+  have e2 := huniq (toMat o.M) ⟨fun j => hdiag j, hrecT⟩
+  refine ⟨fun i j => by rw [e1, ← e2]; rfl, fun i j hij => ?_⟩
+  exact mfpt_ge_one (toMat (transition A)) h0 h1 (toMat o.M) (fun j => hdiag j) hrecT i j hij
+
+/-- **totality of the MFPT model** (and hence of `diffEff`'s first step): for non-negative weights, at least two nodes and every node
+reaching every node, `mfpt` returns — never `singular` or `cert`.  With `mfpt_eq` / `mfpt_model_is_solution` the MFPT clause is
+unconditional on connected / strongly connected input: the model's output exists, is the unique solution of the first-passage
+recurrence, and is ≥ 1 off the diagonal. -/
+theorem mfpt_total (A : QMat n) (hn : 2 ≤ n) (hA : ∀ i j, 0 ≤ A.get i j)
+    (hconn : ∀ i j, Relation.ReflTransGen (fun a b : Fin n => 0 < A.get a b) i j) :
+    ∃ o, mfpt A = .ok o ∧ (∀ j, o.M.get j j = 0) ∧
+      (∀ i j, i ≠ j → o.M.get i j = 1 + ∑ k ∈ univ.erase j, o.P.get i k * o.M.get k j) ∧
+      (∀ i j, i ≠ j → 1 ≤ o.M.get i j) := by
+  have hrow : ∀ i, ∑ k, A.get i k ≠ 0 := by
+    intro i h0
+    -- a node with an empty row reaches nobody, but there is a second node
+    have hz : ∀ k, A.get i k = 0 := fun k =>
+      (Finset.sum_eq_zero_iff_of_nonneg (fun k _ => hA i k)).mp h0 k (Finset.mem_univ _)
+    have hstuck : ∀ j, Relation.ReflTransGen (fun a b : Fin n => 0 < A.get a b) i j → j = i := by
+      intro j hj
+      induction hj with
+      | refl => rfl
+      | tail _ hab ih => subst ih; rw [hz] at hab; exact absurd hab (lt_irrefl _)
+    obtain ⟨j, hj⟩ : ∃ j : Fin n, j ≠ i := by
+      by_cases hi : i.val = 0
+      · exact ⟨⟨1, by omega⟩, fun h => by have := congrArg Fin.val h; simp at this; omega⟩
+      · exact ⟨⟨0, by omega⟩, fun h => by have := congrArg Fin.val h; simp at this; omega⟩
+    exact hj (hstuck j (hconn i j))
+  obtain ⟨o, ho⟩ := Walks.mfpt_total A (by omega) hA hconn hrow
+  obtain ⟨-, -, hdiag, hrec⟩ := mfpt_eq A o ho
+  have hsol := mfpt_model_is_solution A o ho hA hconn (toMat o.M) (fun j => hdiag j) (by
+    obtain ⟨_, hP, -, -, -, -⟩ := mfpt_ok ho
+    intro i j hij
+    have := hrec i j hij
+    simpa [hP] using this)
+  exact ⟨o, ho, hdiag, hrec, hsol.2⟩
+
 def star3 : AMat Int 3 := AMat.ofFn fun i j => if (i.val = 0) != (j.val = 0) then 1 else 0
+
+
+/-- non-vacuity of `mfpt_solution_exists_unique` / `mfpt_model_is_solution`: the star on 3 nodes (the model's and the real
+`bct.mean_first_passage_time` output is `[[0,3,3],[1,0,4],[1,4,0]]`) -/
+example : (∀ i j, 0 ≤ (toQ star3).get i j) ∧ (∀ i, ∑ k, (toQ star3).get i k ≠ 0) ∧
+    ∀ i j : Fin 3, Relation.ReflTransGen (fun a b : Fin 3 => 0 < (toQ star3).get a b) i j := by
+  refine ⟨by decide +kernel, by decide +kernel, fun i j => ?_⟩
+  have e : ∀ a b : Fin 3, 0 < (toQ star3).get a b ∨ a = b ∨ (0 < (toQ star3).get a 0 ∧ 0 < (toQ star3).get 0 b) ∨
+      (0 < (toQ star3).get a 0 ∧ 0 < (toQ star3).get 0 1 ∧ 0 < (toQ star3).get 1 b) := by decide +kernel
+  rcases e i j with h | rfl | ⟨h1, h2⟩ | ⟨h1, h2, h3⟩
+  · exact Relation.ReflTransGen.single h
+  · exact Relation.ReflTransGen.refl
+  · exact Relation.ReflTransGen.tail (Relation.ReflTransGen.single h1) h2
+  · exact Relation.ReflTransGen.tail (Relation.ReflTransGen.tail (Relation.ReflTransGen.single h1) h2) h3
 
 /-- non-vacuity: the star on 3 nodes has an `ok` result, and leaf-to-leaf passage takes 4 steps -/
 example : (match mfpt (toQ star3) with | .ok o => o.M.get 1 2 == 4 && o.M.get 0 1 == 3 | _ => false) = true := by
@@ -201,6 +286,34 @@ theorem pagerank_unique (A : QMat n) (d : ℚ) (f : Option (Vector Int n)) (o : 
     (fun j => by rw [← Finset.sum_div]; exact div_self (hdeg j))
     d hd0 hd1 (fun i => (1 - d) * o.f[i]) r' (fun i => o.r[i]) hr' heq
 
+
+/-- strict positivity for an **arbitrary non-negative prior**: `r_i > 0` for every node `i` that can be reached from a node `j`
+with positive prior along connections (`A[b,a] > 0` carries mass from `a` to `b`); in particular every `r_i > 0` for a connected /
+strongly connected network and any prior with positive sum -/
+theorem pagerank_pos_reachable (A : QMat n) (d : ℚ) (f : Option (Vector Int n)) (o : PrOut n)
+    (h : pagerank A d f = .ok o) (hA : ∀ i j, 0 ≤ A.get i j) (hdeg : ∀ j, ∑ i, A.get i j ≠ 0)
+    (hd0 : 0 < d) (hd1 : d < 1) (hf : ∀ i : Fin n, 0 ≤ o.f[i]) (j i : Fin n) (hj : 0 < o.f[j])
+    (hpath : Relation.ReflTransGen (fun a b : Fin n => 0 < A.get b a) j i) : 0 < o.r[i] := by
+  have heq := pagerank_eq A d f o h hdeg (ne_of_lt hd1)
+  have hnn : ∀ k : Fin n, 0 ≤ o.r[k] := fun k =>
+    le_trans (mul_nonneg (by linarith) (hf k)) (pagerank_pos A d f o h hA hdeg hd0.le hd1 hf k)
+  have hdegpos : ∀ k, 0 < ∑ l, A.get l k := fun k =>
+    lt_of_le_of_ne (Finset.sum_nonneg (fun l _ => hA l k)) (Ne.symm (hdeg k))
+  induction hpath with
+  | refl =>
+    have := pagerank_pos A d f o h hA hdeg hd0.le hd1 hf j
+    have h2 : 0 < (1 - d) * o.f[j] := mul_pos (by linarith) hj
+    linarith
+  | @tail a b _ hab ih =>
+    rw [heq b]
+    have hterm : 0 < A.get b a / (∑ l, A.get l a) * o.r[a] := mul_pos (div_pos hab (hdegpos a)) ih
+    have hsum : A.get b a / (∑ l, A.get l a) * o.r[a] ≤ ∑ k : Fin n, A.get b k / (∑ l, A.get l k) * o.r[k] :=
+      Finset.single_le_sum (f := fun k : Fin n => A.get b k / (∑ l, A.get l k) * o.r[k])
+        (fun k _ => mul_nonneg (div_nonneg (hA b k) (hdegpos k).le) (hnn k)) (Finset.mem_univ a)
+    have h1 : 0 < d * ∑ k : Fin n, A.get b k / (∑ l, A.get l k) * o.r[k] := mul_pos hd0 (lt_of_lt_of_le hterm hsum)
+    have h2 : 0 ≤ (1 - d) * o.f[b] := mul_nonneg (by linarith) (hf b)
+    linarith
+
 /-- default (uniform) prior: every PageRank value is strictly positive -/
 theorem pagerank_pos_default (A : QMat n) (d : ℚ) (o : PrOut n)
     (h : pagerank A d none = .ok o) (hA : ∀ i j, 0 ≤ A.get i j) (hdeg : ∀ j, ∑ i, A.get i j ≠ 0)
@@ -321,6 +434,21 @@ theorem findwalks_counts_walks (A : AMat Int n) (sl : List (AMat Int n)) (h : fi
   obtain ⟨S, h1, -, h2⟩ := h3 q hq1 hqn
   exact ⟨S, h1, fun i j => by rw [h2 i j, walkCount_eq_length], fun i => walksFrom_nodup _ q i,
     fun i l => mem_walksFrom _ q i l⟩
+
+
+/-- **walk-length distribution**: the list the driver prints as `wlq` (`sl.map matTotal`, i.e. `sum(sum(Wq))` per slice) has
+`wlq[0] = 0` and, for `1 ≤ q < n`, `wlq[q]` = the total number of walks of length `q` = `Σ_i Σ_j (C^q) i j`; `twalk` is their sum -/
+theorem findwalks_wlq (A : AMat Int n) (sl : List (AMat Int n)) (h : findwalks A = .ok sl) :
+    (sl.map matTotal).length = n ∧ (sl.map matTotal)[0]? = some 0 ∧
+    ∀ q, 1 ≤ q → q < n → (sl.map matTotal)[q]? =
+      some (∑ i, ∑ j, (walkCount (fun a b => A.get a b != 0) q i j : ℤ)) := by
+  obtain ⟨hlen, h0, hq⟩ := findwalks_power A sl h
+  refine ⟨by simp [hlen], ?_, fun q hq1 hqn => ?_⟩
+  · rw [List.getElem?_map, h0]
+    simp [matTotal, isum_eq, zeroI]
+  · obtain ⟨S, hS, -, hcount⟩ := hq q hq1 hqn
+    rw [List.getElem?_map, hS]
+    simp only [Option.map_some, matTotal, isum_eq, hcount]
 
 def path3dir : AMat Int 3 := AMat.ofFn fun i j => if j.val = i.val + 1 ∨ (i.val = 2 ∧ j.val = 0) ∨ (i.val = 0 ∧ j.val = 2) then 5 else 0
 example : (match findwalks path3dir with
